@@ -188,3 +188,92 @@ func head(b []byte) []byte {
 	}
 	return b
 }
+
+// scenarioExclHold: this process creates a fresh file with O_WRONLY|O_CREATE|O_EXCL (a
+// write-locking call like any other) and keeps it open with a half-written marker in it;
+// a Read / Edit / Mutex.Lock / OpenFile(O_RDONLY) of another process on that path must not
+// return before this process has begun to Close, and a Read must then see the complete
+// final contents.
+func scenarioExclHold(self, work string, waiter string, extra int) scenarioResult {
+	res := scenarioResult{name: "exclhold-" + waiter}
+	path := filepath.Join(work, fmt.Sprintf("exclhold-%s-%d", waiter, extra))
+	os.Remove(path)
+	flags := os.O_WRONLY | os.O_CREATE | os.O_EXCL | extra
+	f, err := lockedfile.OpenFile(path, flags, 0o666)
+	if err != nil {
+		res.setup = err.Error()
+		return res
+	}
+	f.Write(dirty)
+	var history []string
+	note := func(format string, a ...any) { history = append(history, fmt.Sprintf(format, a...)) }
+	note("%d A: OpenFile(%q, %d) returned, wrote %d marker bytes, holding", monoNow(), filepath.Base(path), flags, len(dirty))
+	c2, rd2, in2, err := startHelper(self, nil, "lockwait", path, waiter, "-")
+	if err != nil {
+		f.Close()
+		res.setup = err.Error()
+		return res
+	}
+	defer func() { in2.Close(); c2.Process.Kill(); c2.Wait() }()
+	// give the other process ample time to run into the lock
+	lineCh := make(chan string, 1) // one reader for the helper's single line
+	go func() {
+		s, err := rd2.ReadString('\n')
+		if err != nil {
+			s = "EOF " + s
+		}
+		lineCh <- strings.TrimSpace(s)
+	}()
+	early, gotEarly := "", false
+	select {
+	case early = <-lineCh:
+		gotEarly = true
+	case <-time.After(300 * time.Millisecond):
+	}
+	final := payload(31, 40)
+	if extra&os.O_APPEND != 0 {
+		// WriteAt is refused on an O_APPEND file: the final contents are marker + payload
+		f.Write(final)
+		final = append(append([]byte{}, dirty...), final...)
+	} else {
+		f.WriteAt(final, 0)
+		f.Truncate(int64(len(final)))
+	}
+	tClose := monoNow()
+	note("%d A: final contents written, calling Close", tClose)
+	f.Close()
+	l := early
+	if !gotEarly {
+		ok := true
+		select {
+		case l = <-lineCh:
+		case <-time.After(capWait):
+			ok = false
+		}
+		if !ok {
+			res.viol = "waiter-never-finished"
+			res.detail = fmt.Sprintf("%s did not finish within %v after the creator closed", waiter, capWait)
+			return res
+		}
+	}
+	note("B: %s %s", waiter, l)
+	fs := strings.Fields(l)
+	if len(fs) != 4 || fs[0] != "DONE" {
+		res.setup = "helper said " + l
+		return res
+	}
+	t1, _ := strconv.ParseInt(fs[3], 10, 64)
+	switch {
+	case fs[1] == "err":
+		res.viol = "waiter-failed"
+		res.detail = fmt.Sprintf("%s on the path of a held O_CREATE|O_EXCL file failed", waiter)
+	case gotEarly || t1 < tClose:
+		res.viol = "acquired-while-excl-created-file-held"
+		res.detail = fmt.Sprintf("a %s call of another process returned at %d while the file created with OpenFile(O_WRONLY|O_CREATE|O_EXCL|%d) was still held (Close began at %d): %s",
+			waiter, t1, extra, tClose, strings.Join(history, " ; "))
+	case waiter == "read" && fs[1] != "data:"+hexs(final):
+		res.viol = "read-saw-partial-contents"
+		res.detail = "Read after the creator's Close did not return the final contents: " + fs[1]
+	}
+	return res
+}
